@@ -11,7 +11,7 @@
 (*   DeclaredRankOrder (C19)  the declared order of each tensor;                                 *)
 (*   Levels(r)                names of the partition levels of a rank.                          *)
 EXTENDS Naturals, Sequences, FiniteSets, TLC, Json, SequencesExt
-CONSTANTS MaxVars, MaxTerms, MaxFacs, AllowAffine, AllowTake, AllowPart, MaxStack
+CONSTANTS MaxVars, MaxTerms, MaxFacs, AllowAffine, AllowTake, AllowPart, MaxStack, AllowFlat
 VarNames == <<"m", "n", "k", "j">>
 RankNames == <<"M", "N", "K", "J">>
 TNames == <<"A", "B", "C", "D", "E", "F", "G", "H", "I">>
@@ -70,13 +70,22 @@ Directives(x) == {[k |-> "uniform_shape", sz |-> s] : s \in {2, 3}} \cup {[k |->
                  \cup (IF IsProduct /\ ~IsAffine THEN {[k |-> "uniform_occupancy", sz |-> s, leader |-> h] : s \in {1, 2}, h \in Holders(x)} ELSE {})
 \* stated rule: no n-way split after an occupancy split; occupancy levels stay at the bottom of the stack
 LegalNext(st, d) == \A i \in 1..Len(st) : st[i].k = "uniform_occupancy" => d.k = "uniform_occupancy"
+IsFlat(x) == stacks[x] # <<>> /\ stacks[x][1].k = "flatten"
+FlatVars == {x \in 1..nv : IsFlat(x)}
 StartPart == /\ stage = "part" /\ stacks = <<>> /\ stacks' = [x \in 1..nv |-> <<>>]
              /\ UNCHANGED <<stage, nv, out, terms, cur, ro, lo>>
 AddDirective == /\ stage = "part" /\ stacks # <<>> /\ AllowPart /\ ~IsAffine
                 /\ \E x \in 1..nv : \E d \in Directives(x) :
+                      /\ ~IsFlat(x) /\ (\A z \in FlatVars : stacks[z][1].sz # x)
                       /\ Len(stacks[x]) < MaxStack /\ LegalNext(stacks[x], d)
                       /\ stacks' = [stacks EXCEPT ![x] = Append(@, d)]
                 /\ UNCHANGED <<stage, nv, out, terms, cur, ro, lo>>
+\* flattening of two unpartitioned ranks that some tensor holds together, written (x, y): recorded as the one-entry stack of x
+\* ([k |-> "flatten", sz |-> y]); at most one flattening per specification
+AddFlatten == /\ stage = "part" /\ stacks # <<>> /\ AllowFlat /\ ~IsAffine /\ FlatVars = {}
+              /\ \E x, y \in 1..nv : /\ x # y /\ stacks[x] = <<>> /\ stacks[y] = <<>> /\ Holders(x) \cap Holders(y) # {}
+                                     /\ stacks' = [stacks EXCEPT ![x] = <<[k |-> "flatten", sz |-> y]>>]
+              /\ UNCHANGED <<stage, nv, out, terms, cur, ro, lo>>
 FinishPart == stage = "part" /\ stacks # <<>> /\ stage' = "ro" /\ UNCHANGED <<nv, out, terms, cur, stacks, ro, lo>>
 \* rank order per tensor: omitted (<<>>) or the reversal of a 2-rank declaration
 TensorRanks(f) == [p \in 1..Len(f.idx) |-> IF Len(f.idx[p]) = 1 THEN f.idx[p][1].v ELSE 0]
@@ -96,22 +105,31 @@ AppendNew(s, xs) == IF xs = <<>> THEN s ELSE AppendNew(IF Head(xs) \in SeqSet(s)
 IdxSeq(ix) == IF ix = <<>> THEN <<>> ELSE [q \in 1..Len(Head(ix)) |-> Head(ix)[q].v] \o IdxSeq(Tail(ix))
 FacSeq(fs) == IF fs = <<>> THEN <<>> ELSE (IF Head(fs).k = "t" THEN IdxSeq(Head(fs).idx) ELSE <<>>) \o FacSeq(Tail(fs))
 FirstAppearance == AppendNew(out, FacSeq(AllFacs))
-DefaultLoopOrder == Expand(FirstAppearance)
+\* a flattened pair (x, y) is replaced in place by the flattened rank when y immediately follows x in the list; otherwise both
+\* are removed and the flattened rank goes innermost (reading of Partitioning.partition_ranks, see DESIGN 11.3)
+PosOf(s, v) == CHOOSE i \in 1..Len(s) : s[i] = v
+ExpandF(s) ==
+  IF FlatVars = {} THEN Expand(s)
+  ELSE LET x == CHOOSE z \in FlatVars : TRUE  y == stacks[x][1].sz  px == PosOf(s, x)  py == PosOf(s, y)
+           name == RankNames[x] \o RankNames[y] IN
+       IF py = px + 1 THEN Expand(SubSeq(s, 1, px - 1)) \o <<name>> \o Expand(SubSeq(s, py + 1, Len(s)))
+       ELSE Expand(SelectSeq(s, LAMBDA v : v # x /\ v # y)) \o <<name>>
+DefaultLoopOrder == ExpandF(FirstAppearance)
 AllLevels == UNION {SeqSet(Levels(x)) : x \in 1..nv}
 \* loop order: omitted, or the default written out, or any interleaving that keeps each rank's levels outermost-to-innermost
 ChooseLoop == /\ stage = "lo"
               /\ \/ lo' = <<"omitted">>
                  \/ lo' = DefaultLoopOrder
-                 \/ \E p \in Permutations(1..nv) : lo' = Expand([i \in 1..nv |-> p[i]])
+                 \/ (FlatVars = {} /\ \E p \in Permutations(1..nv) : lo' = Expand([i \in 1..nv |-> p[i]]))
               /\ stage' = "done" /\ UNCHANGED <<nv, out, terms, cur, stacks, ro>>
 Finish == stage = "done" /\ stage' = "emitted" /\ UNCHANGED <<nv, out, terms, cur, stacks, ro, lo>>
 Next == Finish \/ ChooseVars \/ ChooseOut \/ AddTensorFactor \/ AddAffineFactor \/ AddScalarFactor \/ CloseTerm \/ MoreOrNot
-        \/ StartPart \/ AddDirective \/ FinishPart \/ ChooseRankOrders \/ ChooseLoop
+        \/ StartPart \/ AddDirective \/ AddFlatten \/ FinishPart \/ ChooseRankOrders \/ ChooseLoop
 Spec == Init /\ [][Next]_vars
 -----------------------------------------------------------------------------
 Names(s) == [i \in 1..Len(s) |-> VarNames[s[i]]]
 RenderIdx(ix) == [p \in 1..Len(ix) |-> [q \in 1..Len(ix[p]) |-> [c |-> ix[p][q].c, v |-> VarNames[ix[p][q].v]]]]
-RenderStack(st) == [i \in 1..Len(st) |-> IF st[i].k = "uniform_occupancy" THEN [k |-> st[i].k, sz |-> st[i].sz, leader |-> st[i].leader] ELSE [k |-> st[i].k, sz |-> st[i].sz, leader |-> 0]]
+RenderStack(st) == [i \in 1..Len(st) |-> IF st[i].k = "flatten" THEN [k |-> st[i].k, sz |-> st[i].sz, leader |-> 0] ELSE IF st[i].k = "uniform_occupancy" THEN [k |-> st[i].k, sz |-> st[i].sz, leader |-> st[i].leader] ELSE [k |-> st[i].k, sz |-> st[i].sz, leader |-> 0]]
 Emit == stage = "emitted" =>
   PrintT("SPEC|" \o ToJson([nv |-> nv, out |-> Names(out),
      terms |-> [t \in 1..Len(terms) |-> [kind |-> terms[t].kind, sel |-> terms[t].sel,
